@@ -121,7 +121,7 @@ CHECKS = {
          'every sequence of <= 3 (4 thorough) primitive statements over a 16-statement alphabet, 45 long-token sources each in its own killable child process (a stall inside C code),  plus every deletion / duplication / swap / substitution (41-token alphabet) of every token of four seed programs (one '
          'with the stl): the outcome must be success or a FlipJumpException that is not the generic "Unknown exception" funnel '
          '(and names the offending identifier for templates that carry one), within 30 s, leaving no loadable output file.',
-         'Astronomically large ** / << operands and expression nesting beyond 300 are not generated.',
+         'Astronomically large ** / << operands are not generated; label expressions of up to 3000 terms are (F22).',
          'DESIGN.md section 3 C14'),
  'C16': ('exploration',
          'exhaustive program family (C03 skeletons x identifier assignments x 1/2 files) - label instances of the inlined program matched against the saved table; breakpoint resolution over all names and derived substrings',
